@@ -464,7 +464,7 @@ def run(ctx):
         r5.check(v_[0], inst_, v_[1], v_[2], v_[3])
     attach(r5, qsend.analyse_main(db, rep), only={'main:HUP-flag-cleared-before-the-controls-are-re-read', 'main:HUP-handled-before-the-wakeup-time-is-computed'})
     gc = prog.fn('getcontrols', 'qmail-send.c')
-    rg = prog.fn('regetcontrols', 'qmail-send.c')
+    rg = prog.resolve('regetcontrols', 'qmail-send.c') or prog.fn('reread', 'qmail-send.c')       # the re-read may live in reread() itself
 
     class MapHooks(QHooks):
         """getcontrols()/regetcontrols() over the outcomes of reading the two list files: which maps are freed and rebuilt, from what, with which colon flag"""
@@ -526,11 +526,11 @@ def run(ctx):
             return [Outcome(ret=TOP)]
 
         prim_control_rldef = prim_control_readint = prim_control_readline = prim_stralloc_cats = prim_stralloc_cat = prim_stralloc_0 = prim_stralloc_copys = prim_stralloc_append = _ok1
-        prim_control_init = _ok0
+        prim_control_init = prim_chdir = _ok0
         prim_log1 = prim_log2 = prim_log3 = prim_nomem = _n
 
         def on_return(self, E, fn, val):
-            if fn.name in ('getcontrols', 'regetcontrols'):
+            if fn.name in ('getcontrols', rg.name):
                 self.ends.append((g1v(val) if val is not TOP else None, tuple(g1(E, '$ev', ())), E.trace.list()))
 
     from rules.qsend import g1v
@@ -599,7 +599,7 @@ def run(ctx):
     okrr = bool(rr) and all(any(branch_zero_test(c, t, lambda v: v.path() == 'G:flagreadasap') == 'nonzero' for c, t in guards_through(prog, mainf, f_, c_, fresh=False)) for f_, c_ in rr)
     r5.check(okrr, 'loop-calls-reread-when-flagged', mainf.unit + ':main', 'reread() is not reached under "flagreadasap is set" from the main loop')
     rrf = prog.fn('reread', 'qmail-send.c')
-    r5.check(bool(rrf.calls('regetcontrols')), 'reread-calls-regetcontrols', rrf.unit + ':reread', '')
+    r5.check(rg is rrf or bool(rrf.calls(rg.name)), 'reread-calls-regetcontrols', rrf.unit + ':reread', '')
     r5.expect_min(11)
     rep.assume('which entry wins for a given address, the percent-hack arithmetic and VERP expansion text are string computations and are not decided',
                'constmap_init stores keys up to the colon when flagcolon is set')
